@@ -70,7 +70,10 @@ def run(ctx):
                     tuples.append((tuple(idx.index(n) for n in names), st))
                     good = True
         if not good:
-            ctx.violate("R1", "statement other than `array[<4 index params>] = value` in set_four_index_element", f, st)
+            if isinstance(st, (ast.If, ast.For, ast.While, ast.Try, ast.With)):
+                ctx.violate("R1", "symmetry-equivalent positions are assigned only conditionally (the fill must not depend on the index order)", f, st, construct=f"conditional: {type(st).__name__.lower()} {src_of(getattr(st, 'test', st))[:60]}")
+            else:
+                ctx.violate("R1", "statement other than `array[<4 index params>] = value` in set_four_index_element", f, st)
     want = _orbit()
     got = {t for t, _ in tuples}
     for t, st in tuples:
@@ -233,17 +236,33 @@ def run(ctx):
             wv = [getattr(e, "id", None) for e in par.targets[0].elts]
         rets = [n for n in dn.own_nodes() if isinstance(n, ast.Return)]
         if wv and len(rets) == 1 and isinstance(rets[0].value, ast.Tuple) and len(rets[0].value.elts) == 2:
-            def origin(e):
+            def origin(e, allow_slice):
+                """Follow plain aliases (and, for the vectors, basic slices) back to the eigh results.
+                Any other transformation (clip, abs, arithmetic, sorting ...) is reported as 'modified'."""
                 seen = set()
-                while isinstance(e, ast.Name) and e.id not in wv and e.id not in seen:
-                    seen.add(e.id)
-                    d = straightline_def(dn, e.id, rets[0])
-                    if d is None or isinstance(d, tuple):
-                        break
-                    e = d
-                return names_in(e) & set(wv)
-            o0, o1 = origin(rets[0].value.elts[0]), origin(rets[0].value.elts[1])
-            if o0 == {wv[1]} and o1 == {wv[0]}:
+                modified = None
+                while True:
+                    if isinstance(e, ast.Subscript) and allow_slice and all(isinstance(x, ast.Slice) for x in (e.slice.elts if isinstance(e.slice, ast.Tuple) else [e.slice])):
+                        e = e.value
+                        continue
+                    if isinstance(e, ast.Name) and e.id not in wv and e.id not in seen:
+                        seen.add(e.id)
+                        d = straightline_def(dn, e.id, rets[0])
+                        if d is None or isinstance(d, tuple):
+                            break
+                        e = d
+                        continue
+                    break
+                if not isinstance(e, ast.Name):
+                    modified = src_of(e)
+                return (names_in(e) & set(wv)), modified
+            (o0, m0), (o1, m1) = origin(rets[0].value.elts[0], True), origin(rets[0].value.elts[1], False)
+            if o0 == {wv[1]} and o1 == {wv[0]} and (m0 or m1):
+                ctx.violate("R5", f"the returned {'orbitals' if m0 else 'occupations'} are a modified copy of the eigh result (`{m0 or m1}`): they are no longer the generalized eigen{'vectors' if m0 else 'values'}", dn, rets[0])
+                o0 = o1 = None
+            if o0 is None:
+                pass
+            elif o0 == {wv[1]} and o1 == {wv[0]}:
                 ctx.ok("R5", "returns (eigenvectors, eigenvalues) in the documented order", f"{dn.module.relpath}:{rets[0].lineno}")
             else:
                 ctx.violate("R5", f"return order is not (coeffs from eigenvectors, occs from eigenvalues): got origins {sorted(o0)}, {sorted(o1)}", dn, rets[0])
